@@ -123,6 +123,17 @@ TEXT = {
 
 NOT_APPLICABLE = []
 
+# Properties for which no check is registered. None of them is "not applicable" to the technique (DESIGN.md 5):
+# their engines were planned (DESIGN.md 4) and not built in the time available. Listed in MANIFEST.not_applicable
+# because that is where the schema puts "properties you do not claim, each with a one-line reason".
+UNCLAIMED = {
+    "C13": "not claimed: the engine (seeded scheduler over the real flock/unlink calls of fs/os_unix.go) is not built; the technique applies (DESIGN.md 4/C13, 11)",
+    "C14": "not claimed: the aliasing/poison personality exists in SimFS but the snapshot oracle over retained slices is not validated as a check of its own, and the real-mmap part is not built (DESIGN.md 4/C14, 11)",
+    "C15": "not claimed: no check of its own (file-set / handle accounting over long compaction cycles not built); two C15 defects were found and repaired through C01's engine (known_findings.json F07, F08)",
+    "C17": "not claimed: needs the uninstrumented real-file-system build of the harness (fs.Mem / fs.OS / fs.OSMMap differential), which is not built (DESIGN.md 4/C17, 11)",
+    "C18": "not claimed: the golden image corpus written by the pinned build is not built; the decoder invariant half runs inside C01-C06 but is not a check of C18 (DESIGN.md 4/C18, 11)",
+}
+
 PROPS["C08"] = dict(
     level="fault_enumeration",
     runs=dict(quick=6000, thorough=120000), budget_s=dict(quick=170, thorough=1700),
@@ -181,10 +192,13 @@ PROPS["C10"] = dict(
     level="exploration",
     runs=dict(quick=6000, thorough=150000), budget_s=dict(quick=170, thorough=1700), gomaxprocs=4,
     rule="one evaluation = one seeded concurrent run of 3-6 tasks calling every public method (Put, Delete, Get, GetAppend, Has, Count, Items/Next, Sync, Compact, Backup, FileSize, Metrics, Close - Close by a random task at a random position, sometimes twice), background worker on in half the runs; "
-         "oracles: no panic, scheduler deadlock detector, no goroutine left when the bubble ends, no open handle / lock after Close, no write acknowledged after Close returned, and the directory reopened cleanly and with forced recovery holds per key the last acknowledged write or a failed write of the Close race; "
+         "oracles: no panic, scheduler deadlock detector, step limit (livelock), no goroutine left when the bubble ends, no database-spawned goroutine granted a step after the first successful Close returned, "
+         "an operation may return an error only if a Close had been invoked by the time it returned, and the directory reopened cleanly and with forced recovery holds per key the last acknowledged write or a write that failed in the Close race "
+         "(a write invoked after Close returned that returns nil must have no effect; the log replayed by the independent decoder must yield an allowed value per key); "
          "distinct_nontrivial = distinct schedule digests",
     real=REAL_SCHED, stub=STUB_SCHED,
-    assumptions=SCHED_ASSUME + ["the data-race clause is decided by the REAL-mode part (race detector on real goroutines), whose schedules are not controlled"],
+    assumptions=SCHED_ASSUME + ["NOT decided here: the data-race clause (the race detector sees nothing under a scheduler that hands one baton around; the planned real-goroutine -race mode is not built) and the memory-fault clause of fs.OSMMap (the simulated disk replaces the FileSystem)",
+                                "open handles / a held lock after Close are counted as probes, not judged (C15 / C13 matters)"],
     must_reach=dict(quick=["close_raced", "write_failed_in_close_race", "write_started_after_close", "tick", "context_switches"], thorough=["close_raced"]),
 )
 PROPS["C11"] = dict(
@@ -208,8 +222,8 @@ TEXT["C05"] = _t("sim+harness", "deterministic simulation with fault injection: 
                  "Seeded search over interleavings of writers with compaction's per-record critical sections, plus process-crash images inside and after Compact (concurrent and sequential), recovered by the real code.",
                  "Schedules and crash points sampled. Single writer per key makes the crash oracle exact.", "DESIGN.md 4/C05")
 TEXT["C10"] = _t("sim+harness", "deterministic simulation: all public methods incl. Close from several tasks under the seeded scheduler; deadlock detector, panic capture, end-of-bubble leak check, post-Close directory oracle",
-                 "Seeded search over interleavings of every public method with Close and the background worker; decides the panic / deadlock / leaked-goroutine / Close-race clauses. The data-race clause is decided separately by the race detector on real goroutines.",
-                 "Schedules sampled at lock/FS-call granularity. Race detector is blind under the baton scheduler, hence the separate REAL-mode part (DESIGN.md 2.8).", "DESIGN.md 4/C10")
+                 "Seeded search over interleavings of every public method with Close and the background worker; decides the panic / deadlock / goroutine-left-after-Close / Close-race clauses of C10. The data-race clause and the mmap memory-fault clause are NOT decided by this check.",
+                 "Partial: schedules sampled at lock/FS-call granularity on the simulated disk only. The race detector is blind under the baton scheduler and the planned real-goroutine -race mode (DESIGN.md 2.8) is not built, so the data-race clause - including the fs.Mem races seen by a design-phase probe (DESIGN.md 6 #10, 11) - is outside this check.", "DESIGN.md 4/C10, 11")
 TEXT["C11"] = _t("sim+harness", "deterministic simulation: scans interleaved item by item with writers, splits and compaction by the seeded scheduler; write-log oracle for truthfulness and completeness",
                  "Seeded search over interleavings of Items scans with Put/Delete aimed at the split bucket and at overflow chains, and Compact; plus exact sequential scans.",
                  "Schedules sampled.", "DESIGN.md 4/C11")
